@@ -1,1 +1,1 @@
-
+import GfsGen.Facts
